@@ -219,8 +219,10 @@ class IsSolid(Contract):
         nus = c.int_list("nus")
         ss = c.obj("SubstreamsInfo", "py7zr.archiveinfo", num_unpackstreams_folders=nus)
         ms = c.obj("StreamsInfo", "py7zr.archiveinfo", substreamsinfo=ss)
-        hd = c.obj("Header", "py7zr.archiveinfo", main_streams=ms)
-        return {"self_": c.obj("SevenZipFile", "py7zr.py7zr", header=hd), "_nus": nus}
+        # an archive without data streams (no members; only directories / empty files) has no MainStreamsInfo
+        none = c.choice(2) == 1
+        hd = c.obj("Header", "py7zr.archiveinfo", main_streams=None if none else ms)
+        return {"self_": c.obj("SevenZipFile", "py7zr.py7zr", header=hd), "_nus": nus, "_none": none}
 
     def call_args(self, bound):
         return [bound["self_"]], {}
@@ -228,7 +230,9 @@ class IsSolid(Contract):
     def fresh_result(self, c, **b):
         return c.bool("solid")
 
-    def ensures(self, c, old, result, self_, _nus):
+    def ensures(self, c, old, result, self_, _nus, _none):
+        if _none:
+            return [("not-solid-without-data-streams", result is False)]
         xs = c.view(_nus)
         from contracts.sections import exists_of
 
@@ -298,3 +302,136 @@ class ArchiveFileListGetItem(Contract):
             ("id-is-the-recorded-one", c.f(result, "id") == nth(c.f(self_, "ids"), index)),
             ("member-is-the-kth", c.f(result, "_file_info") == nth(c.f(self_, "files_list"), index)),
         ]
+
+
+# ------------------------------------------------------------------------------------- archive summary (archiveinfo)
+def _events(eng, name, kinds=("call", "contract-call", "pure")):
+    return [e for e in eng.trace if e.kind in kinds and str(e.name).split(".")[-1].split(":")[-1] == name]
+
+
+@contract
+class GetMethodNames(Contract):
+    """the method names of the summary are computed from the coder lists of ALL folders of the archive (and are
+    empty when the archive has no data streams); a coder id without a name is reported as an unsupported method"""
+
+    target = PY + "SevenZipFile._get_method_names"
+    props = ("C10",)
+    abstract = True
+    track_raises = True
+    opaque = ("compressor:get_methods_names",)  # its own contract: contracts/listing.py MethodsNames
+
+    def setup(self, c):
+        none = c.choice(2) == 1
+        folders = c.list_of(c.eng.fresh_seq("folders", "opq", "list"))
+        ui = c.obj("UnpackInfo", "py7zr.archiveinfo", folders=folders)
+        ms = c.obj("StreamsInfo", "py7zr.archiveinfo", unpackinfo=ui)
+        hd = c.obj("Header", "py7zr.archiveinfo", main_streams=None if none else ms)
+        return {"self_": c.obj("SevenZipFile", "py7zr.py7zr", header=hd), "_none": none, "_folders": folders}
+
+    def call_args(self, bound):
+        return [bound["self_"]], {}
+
+    def raises(self):
+        # KeyError from the name table is converted; anything else the (here unknown) callee raises propagates
+        return [RaiseSpec("UnsupportedCompressionMethodError"), RaiseSpec("Exception")]
+
+    def xensures(self, c, old, exc, self_, _none, _folders):
+        return [("never-fails-without-data-streams", not _none)]
+
+    def ensures(self, c, old, result, self_, _none, _folders):
+        eng = c.eng
+        if eng.ctx_mode == "assume":
+            return []
+        calls = _events(eng, "get_methods_names")
+        if _none:
+            from pyvc.engine import Ref
+
+            empty = isinstance(result, Ref) and eng.kind(result) == "list" and eng.get_field(result, "items") == ()
+            return [("no-methods-without-data-streams", bool(empty) and not calls)]
+        one = len(calls) == 1
+        arg = calls[0].pre.get(0) if one else None  # the list handed over, as it was at the call
+        out = [("names-computed-once-from-the-folders", bool(one)), ("result-is-what-the-name-table-returned", bool(one) and result is calls[0].result)]
+        cov = _covers_all_folders(c, arg, _folders) if arg is not None else None
+        if cov is None:
+            return out + [("over-the-coders-of-every-folder", False)]
+        return out + [("one-coder-list-per-folder", cov[0]), ("over-the-coders-of-every-folder", cov[1])]
+
+
+def _covers_all_folders(c, arg, folders):
+    """the argument is [folder.coders for folder in <all folders>]: same length, k-th entry is the k-th folder's coders"""
+    from pyvc.values import SSeq
+
+    if not isinstance(arg, SSeq):
+        return None
+    r = arg
+    fs = c.view(folders)
+    return (L(r) == L(fs), ForAll(lambda k: eq(nth(r, k), attr(nth(fs, k), "coders")), guard=lambda k: And(k >= 0, k < L(fs)), over=r))
+
+
+@contract
+class ArchiveSummary(Contract):
+    """archiveinfo(): the summary is assembled from the archive itself - total size = sum of the members' uncompressed
+    sizes (0 without members), method names and solid flag as computed by _get_method_names / _is_solid, block count =
+    number of folders (0 when the archive has no data streams) - and building it never fails for want of streams"""
+
+    target = PY + "SevenZipFile.archiveinfo"
+    props = ("C10",)
+    abstract = True
+    track_raises = True
+    opaque = ("py7zr:ArchiveInfo", "py7zr:SevenZipFile._get_method_names", "py7zr:SevenZipFile._is_solid")  # the two helpers: own contracts above
+    pure = ("isinstance",)
+    noraise = ("ArchiveInfo", "isinstance", "_is_solid")
+    stable_attrs = ("header", "main_streams", "unpackinfo", "folders", "files", "size", "filename", "fp", "uncompressed")
+    assumptions = ("functools.reduce(lambda x, y: x + y, xs, init) == init + sum(xs) (assumed contract of functools.reduce)",)
+
+    def setup(self, c):
+        none = c.choice(2) == 1
+        folders = c.list_of(c.eng.fresh_seq("folders", "opq", "list"))
+        files = c.list_of(c.eng.fresh_seq("files", "opq", "list"))
+        ui = c.obj("UnpackInfo", "py7zr.archiveinfo", folders=folders)
+        ms = c.obj("StreamsInfo", "py7zr.archiveinfo", unpackinfo=ui)
+        hd = c.obj("Header", "py7zr.archiveinfo", main_streams=None if none else ms, size=c.int("header_size"))
+        self_ = c.obj("SevenZipFile", "py7zr.py7zr", header=hd, files=files, fp=c.opq("fp"), filename=c.opq("filename"))
+        return {"self_": self_, "_none": none, "_folders": folders, "_files": files}
+
+    def call_args(self, bound):
+        return [bound["self_"]], {}
+
+    def raises(self):
+        # os.stat / MultiVolume.stat may fail, _get_method_names reports unsupported methods; nothing else is expected
+        return [RaiseSpec("AssertionError"), RaiseSpec("Exception")]
+
+    def xensures(self, c, old, exc, self_, _none, _folders, _files):
+        import ast as _ast
+
+        # every exceptional exit comes from a callee (stat, the method-name table) or the file-name assertion:
+        # never from the summary arithmetic itself (empty member list, missing stream sections)
+        node = exc.node
+        from_callee = bool(c.eng.trace) and c.eng.trace[-1].kind == "raise-from"
+        return [("fails-only-in-stat-or-name-table", bool(from_callee or isinstance(node, _ast.Assert)))]
+
+    def ensures(self, c, old, result, self_, _none, _folders, _files):
+        eng = c.eng
+        if eng.ctx_mode == "assume":
+            return []
+        mk = _events(eng, "ArchiveInfo")
+        names = _events(eng, "_get_method_names")
+        solid = _events(eng, "_is_solid")
+        sums = _events(eng, "reduce-sum")
+        ok = len(mk) == 1 and len(mk[0].args) == 7 and len(names) == 1 and len(solid) == 1 and len(sums) == 1
+        out = [("summary-built-once-from-the-helpers", bool(ok))]
+        if not ok:
+            return out
+        a = mk[0].args
+        xs, init = sums[0].args
+        fs = c.view(_files)
+        out += [
+            ("result-is-the-summary", result is mk[0].result),
+            ("header-size", eq(a[2], old.f(old.f(self_, "header"), "size"))),
+            ("method-names-from-the-name-helper", a[3] is names[0].result),
+            ("solid-flag-from-the-solid-helper", a[4] is solid[0].result),
+            ("block-count-is-the-folder-count", (a[5] == 0) if _none else (a[5] == L(c.view(_folders)))),
+            ("total-is-the-sum-of-member-sizes", And(True if init is None else init == 0, a[6] is sums[0].result, L(xs) == L(fs))),
+            ("summed-sizes-are-the-members'-uncompressed-sizes", ForAll(lambda k: eq(nth(xs, k), attr(nth(fs, k), "uncompressed")), guard=lambda k: And(k >= 0, k < L(fs)), over=xs)),
+        ]
+        return out
